@@ -183,6 +183,9 @@ func c20Check(c c20Case, info *vlib.Info) *vlib.Failure {
 		more = vlib.Run(vlib.Single(srcNew))
 		less = base
 		extra = expectedNew(c.Kind)
+		if c.Kind == "URLPATH" && len(c.Unit) > 0 && len(c.Unit[0].Params) > 0 {
+			extra = map[string][]string{"interactions": {"http GET " + c.Unit[0].Params[0]}, "tags": {"@freshurl2"}}
+		}
 		if c.Kind == "COPY" && more.Accepted {
 			// the copied block's interactions all live under the fresh first segment
 			extra = map[string][]string{"tags": {"@freshp"}}
